@@ -39,6 +39,12 @@ class C15(Prop):
                 t = dict(task)
                 t["kind"], t["aggregators"] = "m2s", agg
                 out.append(t)
+            # gym / dm_env on top of a MultiToSingleWrapper with custom (mean, min) aggregators: a MID step can then
+            # carry an aggregated discount of zero, which separates "terminated" from "the step is LAST"
+            for k in kinds:
+                t = dict(task)
+                t["kind"], t["aggregators"] = k, "custom"
+                out.append(t)
         return out
 
     def run_task(self, task: Dict[str, Any]) -> Dict[str, Any]:
